@@ -318,12 +318,14 @@ package evidence
 
 // ---------------------------------------------------------------- iteration over the frozen validators / cumulative votes
 
-// IterateSuspiciousValidators walks the committed "_ssvk_" records through State.IterateRange and hands the frozen
-// ones to fn (IAVL range scan, not modelled): assumed iterator, read-only, yields frozen history records.
-//@ assume func (*EvidenceStore).IterateSuspiciousValidators
-//@   iterator
-//@   modifies nothing
-//@   yields y0 != nil && frozenRec(*y0)
+// IterateSuspiciousValidators walks the "_ssvk_" records through State.IterateRange (assumed scan, storage) and hands
+// the frozen ones to fn. Verified on its body: a prefix scan, every element handed to fn is a frozen record, and the
+// iteration stops early only when fn asks for it (a record that is skipped must not cut the others off).
+//@ func (*EvidenceStore).IterateSuspiciousValidators
+//@   iterator                                   // C19.frozen-scan
+//@   requires es != nil && es.state != nil
+//@   modifies exhausted(es.state.cache), exhausted(es.state.txSession)
+//@   yields y0 != nil && frozenRec(*y0)         // C19.frozen-scan
 
 //@ func (*EvidenceStore).GetCumulativeVote
 //@   requires es != nil
